@@ -55,6 +55,11 @@ type (
 		pipelines map[PacketType]string
 		muxMapper context.MuxMapper
 
+		// latestConn is the connSeq of the latest connection of a client id
+		// which has not cleaned up yet, connSeq is the last number given.
+		latestConn map[string]uint64
+		connSeq    uint64
+
 		sessMgr           *SessionManager
 		topicMgr          *TopicManager
 		connectionLimiter *Limiter
@@ -119,6 +124,7 @@ func newBroker(spec *Spec, store storage, muxMapper context.MuxMapper, memberURL
 		done:      make(chan struct{}),
 		muxMapper: muxMapper,
 	}
+	broker.latestConn = make(map[string]uint64)
 	pipelines, err := getPipelineMap(spec)
 	if err != nil {
 		panic(fmt.Sprintf("create pipeline map failed, %v", err))
@@ -375,6 +381,9 @@ func (b *Broker) handleConn(conn net.Conn) {
 		}
 	}
 	b.clients[client.info.cid] = client
+	b.connSeq++
+	client.connSeq = b.connSeq
+	b.latestConn[client.info.cid] = client.connSeq
 	b.setSession(client, connect)
 	b.Unlock()
 
